@@ -238,7 +238,7 @@ func c10(ctx *Ctx) {
 	})
 	// part C: loader state
 	for _, u := range c20Universes(0) {
-		if u.name != "same-basename" {
+		if !strings.HasPrefix(u.name, "same-basename") {
 			continue
 		}
 		for _, mp := range c20Mappings(0) {
